@@ -21,18 +21,23 @@ Fixpoint large_parse_groups (fuel : nat) (b : bytes) : list str :=
 Definition large_parse (b : bytes) : pres (list str) :=
   if (len b) mod 12 =? 0 then Ok (large_parse_groups (length b) b) else Err c_ERR_MSG_UPDATE_ATTR_LEN.
 
-(** every ':'-separated part is packed as one 32-bit field (however many parts there are) *)
+(** every ':'-separated part is packed as one 32-bit field (however many parts there are; the
+    total is checked in large_construct) *)
 Definition large_item (t : str) : option bytes :=
   l <- map_opt (fun p => obind (py_int p) (pack 4)) (split_on 58 t) ;; Some (concat l).
 
 Fixpoint large_items (l : list str) : option bytes :=
   match l with [] => Some [] | t :: r => a <- large_item t ;; b <- large_items r ;; Some (a ++ b) end.
 
+(** LargeCommunity.construct(value): the octets of all texts together must be a non-zero multiple
+    of 12 (RFC 8092), else UpdateMessageError(ATTR_LEN) like any conversion failure *)
 Definition large_construct (l : list str) : pres bytes :=
   match large_items l with
   | None => Err c_ERR_MSG_UPDATE_ATTR_LEN
-  | Some b => match packn 1 (len b) with
-              | Some lb => Ok (c_ATTR_LargeCommunity_FLAG :: c_ATTR_LargeCommunity_ID :: lb ++ b)
-              | None => Exc
-              end
+  | Some b =>
+      if (len b =? 0) || negb ((len b) mod 12 =? 0) then Err c_ERR_MSG_UPDATE_ATTR_LEN
+      else match packn 1 (len b) with
+           | Some lb => Ok (c_ATTR_LargeCommunity_FLAG :: c_ATTR_LargeCommunity_ID :: lb ++ b)
+           | None => Exc
+           end
   end.
